@@ -1,11 +1,16 @@
 package http
 
 import (
+	"bytes"
+	"encoding/base64"
+	"encoding/binary"
 	"fmt"
 	"net/http/httptest"
+	"strings"
 	"testing"
 
 	"pgregory.net/rapid"
+	"storj.io/drpc"
 	"storj.io/drpc/drpchttp"
 	"storj.io/drpc/drpcmetadata"
 
@@ -94,4 +99,79 @@ func TestC13Header(t *testing.T) {
 		return c
 	})
 	pbt.Check(t, pbt.Prop[headerCase]{ID: "C13", Name: "http_header", Gen: pbt.G(gen), Run: runHeader})
+}
+
+// ---- arbitrary request bodies through every protocol -------------------------------------------
+
+type bodyCase struct {
+	CT   string
+	Body []byte
+}
+
+func runBody(c bodyCase) (r pbt.Result) {
+	recvErr, got := false, false
+	h := drpchttp.New(hf(func(s drpc.Stream, rpc string) error {
+		var b []byte
+		if err := s.MsgRecv(&b, rawEnc{}); err != nil {
+			recvErr = true
+			return err
+		}
+		got = true
+		return s.MsgSend(&b, rawEnc{})
+	}))
+	req := httptest.NewRequest("POST", "/svc.Service/Method", bytes.NewReader(c.Body))
+	req.Header.Set("Content-Type", c.CT)
+	rec := httptest.NewRecorder()
+	h.ServeHTTP(rec, req)
+	res := rec.Result()
+	grpcweb := strings.HasPrefix(c.CT, "application/grpc-web")
+	failed := res.StatusCode != 200
+	if grpcweb {
+		out := rec.Body.Bytes()
+		if strings.Contains(c.CT, "-text") {
+			out, _ = b64chunks(out)
+		}
+		failed = !bytes.Contains(out, []byte("grpc-status: 0\r\n"))
+	}
+	if recvErr && !failed {
+		r.Failf("a request the gateway could not decode was answered with success")
+		r.Detailf("ct=%q body=%x status=%d", c.CT, c.Body, res.StatusCode)
+		return
+	}
+	if got {
+		r.Label("decoded")
+	} else {
+		r.Label("rejected")
+	}
+	r.Label("ct_" + c.CT)
+	r.NonTrivial = len(c.Body) > 0
+	r.Key = fmt.Sprintf("%s|%x", c.CT, c.Body)
+	return
+}
+
+func TestC13Bodies(t *testing.T) {
+	gen := rapid.Custom(func(t *rapid.T) bodyCase {
+		c := bodyCase{CT: rapid.SampledFrom(contentTypes).Draw(t, "ct")}
+		switch rapid.IntRange(0, 4).Draw(t, "kind") {
+		case 0:
+			c.Body = rapid.SliceOfN(rapid.Byte(), 0, 40).Draw(t, "raw")
+		case 1: // grpc frame header with hostile length
+			hdr := []byte{byte(rapid.SampledFrom([]int{0, 1, 0x80, 0xff}).Draw(t, "flag")), 0, 0, 0, 0}
+			binary.BigEndian.PutUint32(hdr[1:], rapid.SampledFrom([]uint32{0, 1, 5, 1 << 22, 1<<22 + 1, 1<<32 - 1}).Draw(t, "len"))
+			c.Body = append(hdr, rapid.SliceOfN(rapid.Byte(), 0, 10).Draw(t, "rest")...)
+		case 2: // almost-JSON
+			c.Body = []byte(rapid.SampledFrom([]string{`"aGk="`, `"aGk"`, `"%%%"`, `{`, `[]`, `null`, `""`, `"aGk=" trailing`, `12`}).Draw(t, "json"))
+		case 3: // base64 of something, possibly corrupt
+			raw := rapid.SliceOfN(rapid.Byte(), 0, 20).Draw(t, "b64raw")
+			s := base64.StdEncoding.EncodeToString(append([]byte{0, 0, 0, 0, byte(len(raw))}, raw...))
+			if rapid.Bool().Draw(t, "corrupt") && len(s) > 2 {
+				s = s[:len(s)/2] + "!" + s[len(s)/2+1:]
+			}
+			c.Body = []byte(s)
+		default:
+			c.Body = nil
+		}
+		return c
+	})
+	pbt.Check(t, pbt.Prop[bodyCase]{ID: "C13", Name: "http_bodies", Gen: pbt.G(gen), Run: runBody})
 }
